@@ -3,7 +3,7 @@
    formalised.  Proved here: the algebraic core of the local order condition. *)
 From Coq Require Import List Arith.
 From PD Require Import Base.Field Base.Matrix Base.Solve Model.Gauss Model.Prior Spec.RTS
-  Proofs.GaussProofs Proofs.FilterProofs Proofs.PriorProofs Proofs.OrderProofs.
+  Proofs.GaussProofs Proofs.FilterProofs Proofs.PriorProofs Proofs.OrderProofs Proofs.PolyExact.
 Import ListNotations.
 
 Section C01.
@@ -29,7 +29,33 @@ Section C01.
       kf_update inv n k c Hm r R rv = Some upd ->
       n_mean upd = canon n c (n_mean rv).
   Proof. exact zero_residual_update_keeps_mean. Qed.
+
+  (* Taylor's formula for polynomials in the form the prediction uses it:
+     sum_{k >= i} h^(k-i)/(k-i)! p^(k)(t) = p^(i)(t+h)  for deg p = D <= q *)
+  Theorem C01_taylor_shift_is_exact_on_polynomials :
+    forall (a : nat -> F) D q i (t h : F), D <= q -> i <= q ->
+      vsum (S q) (fun k => fmul (if Nat.leb i k then dpow h (k - i) else f0) (pder a D k t))
+      = pder a D i (fadd t h).
+  Proof. exact taylor_shift_of_polynomial. Qed.
+
+  (* EXACTNESS ON POLYNOMIAL SOLUTIONS, EVERY GRID: if the solution of u' = p'(t)
+     is a polynomial of degree D <= q and the initial mean holds its exact
+     derivatives, the textbook EKF (closed-form IWP prediction, update on the
+     derivative selector; ARBITRARY step sizes, process noises, observation noises,
+     initial covariance, inverse oracle) holds the exact derivatives at every node
+     of every grid.  With C02 (solver step = EKF step) this is the zero-error case
+     of the order statement. *)
+  Theorem C01_filter_is_exact_on_polynomial_solutions :
+    forall (a : nat -> F) D q (inv : nat -> @mat F -> option (@mat F)),
+      1 <= q -> D <= q ->
+      forall steps t (rv : @normal F) l,
+        n_mean rv = exact_mean a D q t ->
+        ekf_poly_grid a D q inv t rv steps = Some l ->
+        Forall (fun tn => n_mean (snd tn) = exact_mean a D q (fst tn)) l.
+  Proof. exact ekf_exact_on_polynomials_every_grid. Qed.
 End C01.
 
 Print Assumptions C01_prediction_is_taylor_shift_partial.
 Print Assumptions C01_zero_residual_update_keeps_mean_partial.
+Print Assumptions C01_taylor_shift_is_exact_on_polynomials.
+Print Assumptions C01_filter_is_exact_on_polynomial_solutions.
